@@ -23,6 +23,10 @@ const (
 	FuncCodeReadFIFOQueue              FunctionCode = 24
 )
 
+// maxADUSize is the largest Modbus frame: 253 bytes of PDU plus 7 bytes of
+// MBAP header for TCP (an RTU frame is at most 256 bytes)
+const maxADUSize = 260
+
 // ExceptionCode represents a modbus exception code
 type ExceptionCode byte
 
